@@ -207,9 +207,9 @@ Proof.
   apply filter_In. split; [exact Hin | apply N.eqb_eq; exact Hs].
 Qed.
 
-Lemma inv_file_state g f st h : DeferInv g -> DeferInv (dstep true true g (DFileState f st h)).
+Lemma inv_file_state u r c g f st h : DeferInv g -> DeferInv (dstepR u r c g (DFileState f st h)).
 Proof.
-  intros [W H]. cbn [dstep].
+  intros [W H]. cbn [dstepR].
   destruct (skel_set_file_state g f st h) as [Hs [Hf [_ Hd]]].
   set (g1 := set_file_state g f st h) in *.
   assert (W1 : WF g1) by (eapply WF_keys; [rewrite Hs; reflexivity | exact W]).
@@ -259,18 +259,20 @@ Lemma sk_set_det_fields ks b t :
   q_deferred (sk_set_det ks b t) = q_deferred t.
 Proof. unfold sk_set_det. destruct (mem_N (q_key t) ks); auto. Qed.
 
-Definition sk_undefer (deps : list dep) (R : list N) (t : sskel) : sskel :=
-  if q_deferred t && existsb (fun d => mem_N (d_src d) R && (d_snk d =? q_key t)) deps
+Definition sk_undefer (r : bool) (files : list file) (deps : list dep) (R : list N) (t : sskel) : sskel :=
+  if q_deferred t && (existsb (fun d => mem_N (d_src d) R && (d_snk d =? q_key t)) deps
+                      && (negb r || negb (unus files deps (q_key t))))
   then mkSk (q_key t) (q_state t) (q_need t) false (q_dc t) (q_holding t) (q_detached t) (q_creator t)
             (q_stored t) (q_hh t)
   else t.
 
-Lemma skel_undefer_consumers g R :
-  sks (undefer_consumers g R) = map (sk_undefer (g_deps g) R) (sks g) /\
-  g_files (undefer_consumers g R) = g_files g /\ g_deps (undefer_consumers g R) = g_deps g.
+Lemma skel_undefer_consumers r g R :
+  sks (undefer_consumers_with r g R) = map (sk_undefer r (g_files g) (g_deps g) R) (sks g) /\
+  g_files (undefer_consumers_with r g R) = g_files g /\ g_deps (undefer_consumers_with r g R) = g_deps g.
 Proof.
-  unfold undefer_consumers. split; [|auto]. unfold sks. cbn [g_steps with_steps]. rewrite !map_map.
-  apply map_ext. intros s. unfold undeferF, sk_undefer. cbn [sk_step q_deferred q_key].
+  unfold undefer_consumers_with. split; [|auto]. unfold sks. cbn [g_steps with_steps]. rewrite !map_map.
+  apply map_ext. intros s. unfold undeferF_with, sk_undefer. cbn [sk_step q_deferred q_key].
+  rewrite unusable_dyn_eq.
   destruct (s_deferred s && _); reflexivity.
 Qed.
 
@@ -281,9 +283,9 @@ Proof.
   apply in_map. apply filter_In. split; [exact Hf|]. rewrite Hm, Hd. reflexivity.
 Qed.
 
-Lemma inv_set_detached g ks b : DeferInv g -> DeferInv (dstep true true g (DSetDetached ks b)).
+Lemma inv_set_detached r c g ks b : DeferInv g -> DeferInv (dstepR true r c g (DSetDetached ks b)).
 Proof.
-  intros [W H]. cbn [dstep]. unfold set_detached_nodes_with.
+  intros [W H]. cbn [dstepR]. unfold set_detached_nodes_with.
   destruct (skel_set_detached_nodes_core g ks b) as [Hs [Hf Hd]].
   set (g1 := set_detached_nodes_core g ks b) in *.
   assert (K1 : map q_key (sks g1) = map q_key (sks g)).
@@ -297,34 +299,41 @@ Proof.
     + intros f0 Hf0 Hu _. exists (if mem_N (f_key f0) ks then set_fplace f0 true (f_creator f0) else f0). split.
       * apply in_map_iff. exists f0. auto.
       * destruct (mem_N (f_key f0) ks); [|auto]. split; [reflexivity|]. reflexivity.
-  - (* nodes are re-attached: the trigger clears `deferred` of their consumers *)
-    destruct (skel_undefer_consumers g1 (reattached_nodes g ks)) as [Hs2 [Hf2 Hd2]].
+  - (* nodes are re-attached: the trigger clears `deferred` of their consumers (refined: of those that have no
+       unusable dynamic input left) *)
+    destruct (skel_undefer_consumers r g1 (reattached_nodes g ks)) as [Hs2 [Hf2 Hd2]].
     split.
     + eapply WF_keys; [|exact W]. rewrite Hs2, <- K1. apply map_keys_F. intros t. unfold sk_undefer.
       destruct (q_deferred t && _); reflexivity.
-    + unfold DeferJustified. rewrite Hs2, Hf2, Hd2, Hs, Hf, Hd.
+    + unfold DeferJustified. rewrite Hs2, Hf2, Hd2.
       intros t2 Ht2 Hdef. apply in_map_iff in Ht2. destruct Ht2 as [t1 [<- Ht1]].
-      apply in_map_iff in Ht1. destruct Ht1 as [t [<- Ht]].
-      destruct (sk_set_det_fields ks false t) as [Ek [Es Ed]].
-      unfold sk_undefer in *. rewrite Ed, Ek in *.
-      destruct (q_deferred t) eqn:Edef; cbn [andb] in *; [|rewrite Ed in Hdef; discriminate].
-      destruct (existsb (fun d => mem_N (d_src d) (reattached_nodes g ks) && (d_snk d =? q_key t)) (g_deps g)) eqn:Ex;
-        [discriminate|].
-      rewrite Es, Ek. destruct (H t Ht Edef) as [Hp Hu]. split; [exact Hp|].
-      revert Hu. apply unus_mono.
-      * intros d Hin Hk Hy. exists d. auto.
-      * intros f0 Hf0 Hu [d [Hin [Hk [Hy Hsrc]]]].
-        exists (if mem_N (f_key f0) ks then set_fplace f0 false (f_creator f0) else f0). split.
-        { apply in_map_iff. exists f0. auto. }
-        destruct (mem_N (f_key f0) ks) eqn:Em; [|auto]. split; [reflexivity|].
-        destruct (f_detached f0) eqn:Edet.
-        { (* a re-attached input: t is one of its consumers, the trigger cleared its flag *)
-          exfalso. pose proof (in_reattached_file g ks f0 Hf0 Em Edet) as HR.
-          assert (Hc : existsb (fun d => mem_N (d_src d) (reattached_nodes g ks) && (d_snk d =? q_key t)) (g_deps g) = true).
-          { apply existsb_exists. exists d. split; [exact Hin|]. rewrite Hsrc, Hk, N.eqb_refl.
-            apply mem_N_In in HR. rewrite HR. reflexivity. }
-          rewrite Hc in Ex. discriminate. }
-        { unfold file_usable in *. cbn [set_fplace f_detached f_state]. rewrite Edet in Hu. exact Hu. }
+      pose proof Ht1 as Ht1'. rewrite Hs in Ht1'.
+      apply in_map_iff in Ht1'. destruct Ht1' as [t [E1 Ht]].
+      destruct (sk_set_det_fields ks false t) as [Ek [Es Ed]]. rewrite E1 in Ek, Es, Ed.
+      unfold sk_undefer in *.
+      destruct (q_deferred t1) eqn:Edef1; cbn [andb] in *; [|rewrite Edef1 in Hdef; discriminate].
+      assert (Edef : q_deferred t = true) by congruence.
+      destruct (H t Ht Edef) as [Hp Hu].
+      destruct (existsb (fun d => mem_N (d_src d) (reattached_nodes g ks) && (d_snk d =? q_key t1)) (g_deps g1)) eqn:Ex;
+        cbn [andb] in *.
+      * (* a consumer of a re-attached node that keeps the flag: the refined trigger found an unusable input *)
+        destruct (negb r || negb (unus (g_files g1) (g_deps g1) (q_key t1))) eqn:Eg; [discriminate|].
+        apply orb_false_iff in Eg. destruct Eg as [_ Eg]. apply negb_false_iff in Eg.
+        split; [congruence | exact Eg].
+      * (* not a consumer of any re-attached node: its unusable input is untouched *)
+        split; [congruence|]. rewrite Hf, Hd. rewrite Ek. revert Hu. apply unus_mono.
+        -- intros d Hin Hk Hy. exists d. auto.
+        -- intros f0 Hf0 Hu [d [Hin [Hk [Hy Hsrc]]]].
+           exists (if mem_N (f_key f0) ks then set_fplace f0 false (f_creator f0) else f0). split.
+           { apply in_map_iff. exists f0. auto. }
+           destruct (mem_N (f_key f0) ks) eqn:Em; [|auto]. split; [reflexivity|].
+           destruct (f_detached f0) eqn:Edet.
+           { exfalso. pose proof (in_reattached_file g ks f0 Hf0 Em Edet) as HR.
+             assert (Hc : existsb (fun d => mem_N (d_src d) (reattached_nodes g ks) && (d_snk d =? q_key t1)) (g_deps g1) = true).
+             { apply existsb_exists. exists d. split; [rewrite Hd; exact Hin|]. rewrite Hsrc, Hk, Ek, N.eqb_refl.
+               apply mem_N_In in HR. rewrite HR. reflexivity. }
+             rewrite Hc in Ex. discriminate. }
+           { unfold file_usable in *. cbn [set_fplace f_detached f_state]. rewrite Edet in Hu. exact Hu. }
 Qed.
 
 (* ---- edges ---- *)
@@ -361,9 +370,9 @@ Proof.
   destruct (skel_del_dep g d) as [Hs [Hf _]]. rewrite A, B. auto.
 Qed.
 
-Lemma inv_reset_step g k st dynonly : DeferInv g -> DeferInv (dstep true true g (DResetStep k st dynonly)).
+Lemma inv_reset_step u r c g k st dynonly : DeferInv g -> DeferInv (dstepR u r c g (DResetStep k st dynonly)).
 Proof.
-  intros [W H]. cbn [dstep]. unfold drop_inputs.
+  intros [W H]. cbn [dstepR]. unfold drop_inputs.
   set (l := filter (fun d => (d_snk d =? k) && (negb dynonly || d_dyn d)) (g_deps g)).
   assert (Hl : forall d, In d l -> d_snk d = k).
   { intros d Hd. apply filter_In in Hd. destruct Hd as [_ Hd]. apply andb_true_iff in Hd. apply N.eqb_eq. apply Hd. }
@@ -419,28 +428,34 @@ Proof. reflexivity. Qed.
 Lemma defer_within_is_pending : defer_state_within = ST_PENDING.
 Proof. reflexivity. Qed.
 
-Theorem repaired_event_keeps_invariant g e : DeferInv g -> DeferInv (dstep true true g e).
+(* for the trigger in either form (r = false: repo 84081f2, r = true: refined) *)
+Theorem repaired_event_keeps_invariant_gen r g e : DeferInv g -> DeferInv (dstepR true r true g e).
 Proof.
   intros H. destruct e as [k st|k|k within|f st h|ks b|d|k st dynonly|].
-  - cbn [dstep]. apply inv_set_step_state; [exact H | discriminate].
-  - cbn [dstep validate_flag]. apply inv_set_step_state; [exact H|]. intros Hu.
+  - cbn [dstepR]. apply inv_set_step_state; [exact H | discriminate].
+  - cbn [dstepR validate_flag]. apply inv_set_step_state; [exact H|]. intros Hu.
     split; [apply validate_state_is_pending | exact Hu].
-  - cbn [dstep]. apply inv_set_step_state; [apply inv_inc_defer; exact H|]. intros Hd.
+  - cbn [dstepR]. apply inv_set_step_state; [apply inv_inc_defer; exact H|]. intros Hd.
     apply andb_true_iff in Hd. destruct Hd as [-> Hu]. split; [apply defer_within_is_pending|].
     apply unavailable_unusable. exact Hu.
   - apply inv_file_state. exact H.
   - apply inv_set_detached. exact H.
-  - cbn [dstep]. apply inv_ins_dep. exact H.
+  - cbn [dstepR]. apply inv_ins_dep. exact H.
   - apply inv_reset_step. exact H.
-  - cbn [dstep]. destruct (update_meta g) as [g'|] eqn:E; [|exact H].
+  - cbn [dstepR]. destruct (update_meta g) as [g'|] eqn:E; [|exact H].
     apply (inv_same_skel g g' (d_update_meta_same_skel g g' E) H).
 Qed.
 
-Theorem repaired_history_keeps_invariant evs : forall g, DeferInv g -> DeferInv (drun true true evs g).
+Theorem repaired_history_keeps_invariant_gen r evs : forall g, DeferInv g -> DeferInv (drunR true r true evs g).
 Proof.
-  induction evs as [|e evs IH]; intros g H; [exact H|]. cbn [drun fold_left].
-  apply IH. apply repaired_event_keeps_invariant. exact H.
+  induction evs as [|e evs IH]; intros g H; [exact H|]. cbn [drunR fold_left].
+  apply IH. apply repaired_event_keeps_invariant_gen. exact H.
 Qed.
+
+Theorem repaired_event_keeps_invariant g e : DeferInv g -> DeferInv (dstep true true g e).
+Proof. apply repaired_event_keeps_invariant_gen. Qed.
+Theorem repaired_history_keeps_invariant evs : forall g, DeferInv g -> DeferInv (drun true true evs g).
+Proof. apply repaired_history_keeps_invariant_gen. Qed.
 
 (* no step is parked for nothing, in particular when a phase ends *)
 Theorem repaired_nothing_parked evs g s :
@@ -464,7 +479,7 @@ Theorem repo_history_keeps_invariant :
   forall evs g, DeferInv g -> DeferInv (drun_repo evs g).
 Proof.
   intros Hr. apply andb_true_iff in Hr. destruct Hr as [Hu Hc]. unfold drun_repo. rewrite Hu, Hc.
-  apply repaired_history_keeps_invariant.
+  apply repaired_history_keeps_invariant_gen.
 Qed.
 
 (* ---- the other shapes: the history of D39 parks `user` for nothing ---- *)
@@ -521,4 +536,205 @@ Proof.
     exact (validate_unchanged_not_dispatched g k g' s Hu Hs Hk).
   - exfalso. assert (Hd : validate_unchanged_deferred = true) by reflexivity. rewrite Hd, validate_state_is_pending in Hu.
     exact (validate_unchanged_not_dispatched g k g' s Hu Hs Hk).
+Qed.
+
+(* ---- D39-refine: the trigger wakes only the consumers that have nothing left to wait for ---- *)
+
+(* the refined shape repairs both histories of D39 as well *)
+Lemma d39_refined_not_parked :
+  parked_b (drunR true true true d39_sequential g_d39) = false /\ parked_b (drunR true true true d39_race g_d39) = false.
+Proof. split; vm_compute; reflexivity. Qed.
+
+(* Converse of the invariant: a re-attachment never clears the flag of a step that still has an unusable dynamic
+   input afterwards (with the unconditional trigger it does: defer_reattach_order_matters_unconditional) *)
+Theorem refined_reattach_keeps_waiting c g ks t :
+  In t (sks g) -> q_deferred t = true ->
+  let gR := dstepR true true c g (DSetDetached ks false) in
+  unusable_dyn gR (q_key t) = true ->
+  exists t', In t' (sks gR) /\ q_key t' = q_key t /\ q_deferred t' = true /\ q_state t' = q_state t.
+Proof.
+  intros Ht Hd gR Hu. unfold gR in *. cbn [dstepR] in *. unfold set_detached_nodes_with in *. cbn [negb andb] in *.
+  destruct (skel_set_detached_nodes_core g ks false) as [Hs [Hf Hdp]].
+  set (g1 := set_detached_nodes_core g ks false) in *.
+  destruct (skel_undefer_consumers true g1 (reattached_nodes g ks)) as [Hs2 [Hf2 Hd2]].
+  rewrite unusable_dyn_eq, Hf2, Hd2 in Hu.
+  destruct (sk_set_det_fields ks false t) as [Ek [Es Ed]].
+  exists (sk_undefer true (g_files g1) (g_deps g1) (reattached_nodes g ks) (sk_set_det ks false t)).
+  split.
+  - rewrite Hs2, Hs. apply in_map. apply in_map. exact Ht.
+  - unfold sk_undefer. rewrite Ek, Hu. cbn [negb orb]. rewrite !andb_false_r.
+    repeat split; congruence.
+Qed.
+
+(* the flag that mark_completed (defer) computes does not depend on which nodes are attached *)
+Lemma existsb_ext' {A} (p q : A -> bool) l : (forall x, p x = q x) -> existsb p l = existsb q l.
+Proof. intros H. induction l as [|a l IH]; [reflexivity|]. cbn [existsb]. rewrite H, IH. reflexivity. Qed.
+Lemma existsb_map' {A B} (p : B -> bool) (m : A -> B) l : existsb p (map m l) = existsb (fun x => p (m x)) l.
+Proof. induction l as [|a l IH]; [reflexivity|]. cbn [map existsb]. rewrite IH. reflexivity. Qed.
+
+Lemma unavailable_dyn_reattach u r g ks b k :
+  unavailable_dyn (set_detached_nodes_with u r g ks b) k = unavailable_dyn g k.
+Proof.
+  assert (Hcore : unavailable_dyn (set_detached_nodes_core g ks b) k = unavailable_dyn g k).
+  { destruct (skel_set_detached_nodes_core g ks b) as [_ [Hf Hd]].
+    unfold unavailable_dyn, src_is. rewrite Hf, Hd. apply existsb_ext'. intros d. f_equal.
+    rewrite existsb_map'. apply existsb_ext'. intros f.
+    destruct (mem_N (f_key f) ks); reflexivity. }
+  unfold set_detached_nodes_with. destruct (u && negb b); [|exact Hcore].
+  destruct (skel_undefer_consumers r (set_detached_nodes_core g ks b) (reattached_nodes g ks)) as [_ [Hf2 Hd2]].
+  unfold unavailable_dyn, src_is in *. rewrite Hf2, Hd2. exact Hcore.
+Qed.
+
+(* c02d's pair on the model: with the refined trigger both orders leave S deferred; with the unconditional
+   trigger of repo 84081f2 the order decides *)
+Lemma comm_refined_agree c :
+  deferred_of (drunR true true c (comm_r1 ++ comm_r2) g_comm) 3 = true /\
+  deferred_of (drunR true true c (comm_r2 ++ comm_r1) g_comm) 3 = true.
+Proof. destruct c; split; vm_compute; reflexivity. Qed.
+Theorem defer_reattach_order_matters_unconditional c :
+  exists g k r1 r2, DeferInv g /\
+    deferred_of (drunR true false c (r1 ++ r2) g) k = false /\
+    deferred_of (drunR true false c (r2 ++ r1) g) k = true /\
+    unusable_dyn (drunR true false c (r1 ++ r2) g) k = true.
+Proof.
+  exists g_comm, 3, comm_r1, comm_r2.
+  split; [split; [apply wf_refl; vm_compute; reflexivity | apply defer_justified_refl; vm_compute; reflexivity]|].
+  destruct c; repeat split; vm_compute; reflexivity.
+Qed.
+
+(* ---- defer and re-attachment commute on the deferred flag (refined trigger), for ALL snapshots ---- *)
+
+Lemma sk_undefer_fields r files deps R t :
+  q_key (sk_undefer r files deps R t) = q_key t /\ q_holding (sk_undefer r files deps R t) = q_holding t.
+Proof. unfold sk_undefer. destruct (q_deferred t && _); auto. Qed.
+Lemma sk_set_det_holding ks b t : q_holding (sk_set_det ks b t) = q_holding t.
+Proof. unfold sk_set_det. destruct (mem_N (q_key t) ks); reflexivity. Qed.
+
+Lemma NoDup_qkey_eq (l : list sskel) t1 t2 :
+  NoDup (map q_key l) -> In t1 l -> In t2 l -> q_key t1 = q_key t2 -> t1 = t2.
+Proof.
+  induction l as [|a l IH]; intros Hnd H1 H2 E; [destruct H1|].
+  cbn [map] in Hnd. inversion Hnd as [|x y Hni Hnd']; subst.
+  destruct H1 as [<-|H1], H2 as [<-|H2].
+  - reflexivity.
+  - exfalso. apply Hni. rewrite E. apply in_map. exact H2.
+  - exfalso. apply Hni. rewrite <- E. apply in_map. exact H1.
+  - apply IH; assumption.
+Qed.
+
+Lemma WF_sks g : WF g -> NoDup (map q_key (sks g)).
+Proof. unfold WF, sks. rewrite map_map. auto. Qed.
+
+(* the row of k after "defer, then re-attach" and after "re-attach, then defer", as functions of the row before *)
+Section Commute.
+  Variables (g : graph) (k : N) (within : bool) (ks : list N) (c : bool).
+  Let stD := if within then defer_state_within else defer_state_beyond.
+  Let df := within && unavailable_dyn g k.
+  Let gA1 := dstepR true true c g (DDefer k within).
+  Let gA := dstepR true true c gA1 (DSetDetached ks false).
+  Let gB1 := dstepR true true c g (DSetDetached ks false).
+  Let gB := dstepR true true c gB1 (DDefer k within).
+  Let filesC := map (fun f => if mem_N (f_key f) ks then set_fplace f false (f_creator f) else f) (g_files g).
+  Let inc := fun t : sskel => (q_dc t + 1, q_holding t).
+
+  Definition rowA (R : list N) (t : sskel) : sskel :=
+    sk_undefer true filesC (g_deps g) R
+      (sk_set_det ks false (let t' := sk_set_life k inc t in if q_key t' =? k then sk_apply_state t' stD df else t')).
+  Definition rowB (R : list N) (t : sskel) : sskel :=
+    let u := sk_set_life k inc (sk_undefer true filesC (g_deps g) R (sk_set_det ks false t)) in
+    if q_key u =? k then sk_apply_state u stD df else u.
+
+  Lemma sks_A : exists R, sks gA = map (rowA R) (sks g).
+  Proof.
+    unfold gA, gA1. cbn [dstepR]. unfold set_detached_nodes_with. cbn [negb andb].
+    fold stD. fold df.
+    set (h := set_step_state (inc_defer g k) k stD df).
+    destruct (skel_set_step_state (inc_defer g k) k stD df) as [Hs [Hf [_ Hd]]]. fold h in Hs, Hf, Hd.
+    change (g_files (inc_defer g k)) with (g_files g) in Hf. change (g_deps (inc_defer g k)) with (g_deps g) in Hd.
+    rewrite (skel_inc_defer g k) in Hs.
+    destruct (skel_set_detached_nodes_core h ks false) as [Hs1 [Hf1 Hd1]].
+    destruct (skel_undefer_consumers true (set_detached_nodes_core h ks false) (reattached_nodes h ks)) as [Hs2 _].
+    exists (reattached_nodes h ks). rewrite Hs2, Hs1, Hf1, Hd1, Hs, Hf, Hd. rewrite !map_map.
+    apply map_ext. intros t. reflexivity.
+  Qed.
+
+  Lemma sks_B : exists R, sks gB = map (rowB R) (sks g).
+  Proof.
+    unfold gB, gB1. cbn [dstepR].
+    rewrite (unavailable_dyn_reattach true true g ks false k). fold stD. fold df.
+    unfold set_detached_nodes_with. cbn [negb andb].
+    set (h := undefer_consumers_with true (set_detached_nodes_core g ks false) (reattached_nodes g ks)).
+    destruct (skel_set_step_state (inc_defer h k) k stD df) as [Hs _].
+    rewrite (skel_inc_defer h k) in Hs.
+    destruct (skel_set_detached_nodes_core g ks false) as [Hs1 [Hf1 Hd1]].
+    destruct (skel_undefer_consumers true (set_detached_nodes_core g ks false) (reattached_nodes g ks)) as [Hs2 _].
+    fold h in Hs2. exists (reattached_nodes g ks). rewrite Hs, Hs2, Hs1, Hf1, Hd1. rewrite !map_map.
+    apply map_ext. intros t. reflexivity.
+  Qed.
+
+  Lemma unavailable_unus_C : unavailable_dyn g k = true -> unus filesC (g_deps g) k = true.
+  Proof.
+    intros H. rewrite <- (unavailable_dyn_reattach false true g ks false k) in H.
+    apply unavailable_unusable in H. unfold set_detached_nodes_with in H. cbn [andb] in H.
+    rewrite unusable_dyn_eq in H. destruct (skel_set_detached_nodes_core g ks false) as [_ [Hf Hd]].
+    rewrite Hf, Hd in H. exact H.
+  Qed.
+
+  Lemma rows_agree RA RB t : q_key t = k -> q_deferred (rowA RA t) = q_deferred (rowB RB t).
+  Proof.
+    intros Ek.
+    (* row B: set_state overwrites the flag *)
+    assert (EB : q_deferred (rowB RB t) =
+                 if sholds (nenv stD (q_holding t)) trg_clear_deferred_when then false else df).
+    { unfold rowB. cbv zeta.
+      set (u0 := sk_undefer true filesC (g_deps g) RB (sk_set_det ks false t)).
+      assert (Eu0 : q_key u0 = k /\ q_holding u0 = q_holding t).
+      { unfold u0. destruct (sk_undefer_fields true filesC (g_deps g) RB (sk_set_det ks false t)) as [A B].
+        rewrite A, B, sk_set_det_holding. destruct (sk_set_det_fields ks false t) as [A' _]. rewrite A'. auto. }
+      destruct Eu0 as [E1 E2]. unfold sk_set_life. rewrite E1, N.eqb_refl. cbn [q_key]. rewrite ?E1, N.eqb_refl.
+      unfold sk_apply_state. cbn [q_deferred q_holding inc snd]. rewrite E2. reflexivity. }
+    rewrite EB. clear EB.
+    (* row A: set_state, then the trigger *)
+    unfold rowA. cbv zeta. unfold sk_set_life. rewrite Ek, N.eqb_refl. cbn [q_key]. rewrite ?Ek, N.eqb_refl.
+    unfold sk_apply_state. cbn [q_holding inc snd fst q_key q_deferred].
+    set (clr := sholds (nenv stD (q_holding t)) trg_clear_deferred_when).
+    unfold sk_set_det. cbn [q_key]. unfold sk_undefer.
+    assert (Hdf : df = true -> unus filesC (g_deps g) k = true).
+    { intros Edf. unfold df in Edf. apply andb_true_iff in Edf. destruct Edf as [_ Eu]. apply unavailable_unus_C. exact Eu. }
+    destruct (mem_N k ks); cbn [q_key q_deferred]; destruct clr; cbn [andb]; try reflexivity;
+      (case_eq df; intros Edf; cbn [andb]; [|reflexivity]);
+      rewrite (Hdf Edf); cbn [negb orb]; rewrite ?andb_false_r; reflexivity.
+  Qed.
+
+  Theorem defer_reattach_commute_row tA tB :
+    WF g -> In tA (sks gA) -> In tB (sks gB) -> q_key tA = k -> q_key tB = k ->
+    q_deferred tA = q_deferred tB.
+  Proof.
+    intros W HA HB EA EB. destruct sks_A as [RA SA]. destruct sks_B as [RB SB].
+    rewrite SA in HA. rewrite SB in HB. apply in_map_iff in HA. apply in_map_iff in HB.
+    destruct HA as [t1 [<- H1]]. destruct HB as [t2 [<- H2]].
+    assert (KD : forall u, q_key (let t' := sk_set_life k inc u in
+                                  if q_key t' =? k then sk_apply_state t' stD df else t') = q_key u).
+    { intros u. cbv zeta. unfold sk_set_life. destruct (q_key u =? k) eqn:E; cbn [q_key]; rewrite ?E; reflexivity. }
+    assert (K1 : q_key (rowA RA t1) = q_key t1).
+    { unfold rowA. rewrite (proj1 (sk_undefer_fields _ _ _ _ _)).
+      rewrite (proj1 (sk_set_det_fields ks false _)). apply KD. }
+    assert (K2 : q_key (rowB RB t2) = q_key t2).
+    { unfold rowB. rewrite KD. rewrite (proj1 (sk_undefer_fields _ _ _ _ _)).
+      apply (proj1 (sk_set_det_fields ks false _)). }
+    assert (t1 = t2) by (apply (NoDup_qkey_eq (sks g)); [apply WF_sks; exact W | exact H1 | exact H2 | congruence]).
+    subst t2. apply rows_agree. congruence.
+  Qed.
+End Commute.
+
+(* the same on step rows *)
+Theorem defer_reattach_commute c g k within ks sA sB :
+  WF g ->
+  In sA (g_steps (dstepR true true c (dstepR true true c g (DDefer k within)) (DSetDetached ks false))) ->
+  In sB (g_steps (dstepR true true c (dstepR true true c g (DSetDetached ks false)) (DDefer k within))) ->
+  s_key sA = k -> s_key sB = k -> s_deferred sA = s_deferred sB.
+Proof.
+  intros W HA HB EA EB.
+  apply (defer_reattach_commute_row g k within ks c (sk_step sA) (sk_step sB) W);
+    [apply in_map; exact HA | apply in_map; exact HB | exact EA | exact EB].
 Qed.
